@@ -432,7 +432,7 @@ def context(mode=None, suppressed=None, after_hash=None):
     return Agg('typstyle_core::pretty::context::Context', None, [md, TOP if suppressed is None else Const(suppressed), TOP if after_hash is None else Const(after_hash)])
 
 
-def evaluate_sequence(w, b, param, parent_kind, seq, no_inline=None, max_paths=12000, ctx=None, extra=None, hooks=None, with_wholes=False, edge_hint=None, peel=None, respect_kinds=False, from_start=False):
+def evaluate_sequence(w, b, param, parent_kind, seq, no_inline=None, max_paths=12000, ctx=None, extra=None, hooks=None, with_wholes=False, edge_hint=None, peel=None, respect_kinds=False, from_start=False, accessor_model=None):
     """evaluate consecutive iterations <seq[0], seq[1], ..> of every loop over syntax nodes in converter b (state carried
     from one iteration to the next, all other state unknown); returns [(loop, [events of step 0], [events of step 1], ..)]"""
     ip = Interp(w, max_depth=12, max_paths=max_paths, max_steps=600000)
@@ -464,6 +464,8 @@ def evaluate_sequence(w, b, param, parent_kind, seq, no_inline=None, max_paths=1
             return ('seq', list(seq), 'from-start')
         return ('seq', list(seq))
     ip.loop_items_cb = items
+    if accessor_model is not None:
+        ip.accessor_model = accessor_model
     if edge_hint:
         ip.children_edge_hint = edge_hint
     if peel:
